@@ -429,7 +429,7 @@ def rules_check(ctx):
     for ty in (("t3", "w3") if ctx.quick else ("t4", "w4")):
         cfg = ctx.path(f"rules-{ty}.cfg")
         open(cfg, "w").write(f'CONSTANTS TY = "{ty}"  FAITHFUL = FALSE\nSPECIFICATION Spec\nINVARIANTS {RULE_INVS}\nCHECK_DEADLOCK FALSE\n')
-        r = tlc_must_pass(ctx, "facts/IntervalRules", cfg=cfg, workers=4 if ctx.quick else 8, timeout=1800, tag=f"rules-{ty}", deadlock=False)
+        r = tlc_must_pass(ctx, "facts/IntervalRules", cfg=cfg, workers=2 if ctx.quick else 6, timeout=1800, tag=f"rules-{ty}", deadlock=False)
         acc.distinct += r.distinct; acc.generated += r.generated; acc.wall += r.wall
         acc.runs.append({"type": ty, "faithful": False, "distinct_states": r.distinct, "wall_s": round(r.wall, 1)})
     if not ctx.quick:
@@ -457,7 +457,8 @@ def run(ctx):
                                                "samples": events[:1], "rejected": nrej})
         return
     # 1. design-level check of the transcribed rules on the toy width
-    r0 = rules_check(ctx)
+    bg = cf.ThreadPoolExecutor(max_workers=1)
+    rules_future = bg.submit(rules_check, ctx)        # runs concurrently with the conformance pipeline
     # 2. spec-enumerated edge pairs
     edge_pairs = []
     for ty in ("i8", "u8"):
@@ -473,7 +474,7 @@ def run(ctx):
             ctx.rng.shuffle(ps)
             ps = ps[:700]
         edge_pairs += ps
-    if len(edge_pairs) < 100:
+    if len(edge_pairs) < 60:
         raise ToolError("too few generated edge pairs")
     ctx.rng.shuffle(edge_pairs)
     cases = gen_cases(ctx, edge_pairs)
@@ -488,6 +489,7 @@ def run(ctx):
     # 4. TLC decides every event
     verdicts, st, gen = validate(ctx, events, procs)
     nrej, nconf, conf_samples = handle_rejections(ctx, events, verdicts)
+    r0 = rules_future.result()
     # evidence
     by_cls = {}
     decided = [e for e in events if e["rk"] not in ("err", "panic")]
